@@ -302,17 +302,19 @@ def _ident(c, children):
 class Expand(MaskMixin, DisjointUnionStrategy):
     """W(p) = {p v : |v| < d}  +  sum over |u| = d of W(p u)."""
 
-    def __init__(self, d=1, mask=None, lazy=False, drop=False):
+    def __init__(self, d=1, mask=None, lazy=False, drop=False, atom_last=False):
         super().__init__(ignore_parent=False, inferrable=True, possibly_empty=True, workable=True)
         self.d = d
         self.mask = mask
         self.lazy = lazy
+        # atom_last: the atoms come after the longer prefixes (the first child can then be empty)
+        self.atom_last = atom_last
         # drop: an atom child in which no tracked letter occurs carries no statistics
         # (the parent's statistics are then unmapped on that child and must be zero there)
         self.drop = drop
 
     def _args_repr(self):
-        return f"d={self.d}" + (",drop" if self.drop else "")
+        return f"d={self.d}" + (",drop" if self.drop else "") + (",atom_last" if self.atom_last else "")
 
     def _atom(self, c, word):
         if self.drop and c.tracked and not any(l in word for l in c.tracked):
@@ -323,15 +325,16 @@ class Expand(MaskMixin, DisjointUnionStrategy):
         if c.just_prefix or c.is_empty() or self.masked(c):
             return None
         ok = lambda v: c.start_set is None or not v or len(c.prefix) > 0 or v[0] in c.start_set  # noqa: E731
-        children = []
+        atoms = []
         for l in range(self.d):
             for v in product(c.alphabet, repeat=l):
                 if ok(v):
-                    children.append(self._atom(c, tuple(c.prefix) + v))
+                    atoms.append(self._atom(c, tuple(c.prefix) + v))
+        longer = []
         for u in product(c.alphabet, repeat=self.d):
             if ok(u):
-                children.append(c.replace(prefix=tuple(c.prefix) + u, start_set=None))
-        return tuple(children)
+                longer.append(c.replace(prefix=tuple(c.prefix) + u, start_set=None))
+        return tuple(longer + atoms) if self.atom_last else tuple(atoms + longer)
 
     def extra_parameters(self, comb_class, children=None):
         if children is None:
@@ -358,11 +361,12 @@ class Expand(MaskMixin, DisjointUnionStrategy):
         d = self._base_json()
         d["d"] = self.d
         d["drop"] = self.drop
+        d["atom_last"] = self.atom_last
         return d
 
     @classmethod
     def from_dict(cls, d):
-        return cls(d["d"], d.get("mask"), d.get("lazy", False), d.get("drop", False))
+        return cls(d["d"], d.get("mask"), d.get("lazy", False), d.get("drop", False), d.get("atom_last", False))
 
 
 class RemoveFront(MaskMixin, CartesianProductStrategy):
@@ -995,7 +999,7 @@ class ExpandFactory(StrategyFactory):
 # ---------------------------------------------------------------------------
 
 _STRATS = {
-    "Expand": lambda s: Expand(s.get("d", 1), _mask(s), s.get("lazy", False), s.get("drop", False)),
+    "Expand": lambda s: Expand(s.get("d", 1), _mask(s), s.get("lazy", False), s.get("drop", False), s.get("atom_last", False)),
     "SplitZeros": lambda s: SplitZeros(_mask(s), s.get("lazy", False)),
     "ForgetMark": lambda s: ForgetMark(_mask(s), s.get("lazy", False)),
     "RemoveFront": lambda s: RemoveFront(_mask(s), s.get("lazy", False), s.get("split", False), s.get("merge", False)),
